@@ -11,6 +11,7 @@ import common
 from common import sx
 from e2e import canon, try_, _short
 import c15_shared
+import c15_siblings
 
 
 def lru_sweep(run, model, L):
@@ -114,6 +115,10 @@ def run(run):
                 "sessions over queries that SHARE sub-expressions (c15_shared.py: source x view of the source x random interleaving of len/size/count/optimize/compute/"
                 "failure/gc/rebuild steps with observations of concat / alignment / length targets built from the same objects), every observation (plan fingerprint, "
                 "divisions, dtypes, result) compared with the target alone in a fresh interpreter on data with a salt of its own; "
+                "sessions over SIBLING queries (c15_siblings.py: queries that differ only in a detail of one operand -- item order of dicts at any nesting depth, "
+                "dict / OrderedDict / defaultdict, int / float / bool / numpy scalar, 0.0 / -0.0, list / tuple, nesting shape, kind of missing value, str / bytes, key types, "
+                "array and Series dtype / name / index, closures -- passed through 16 operators of user functions and 27 built-in operators, built / touched / discarded "
+                "in random order), every observation (meta columns, plan fingerprint, divisions, dtypes, exact typed result) compared with the query alone in a fresh interpreter; "
                 "non-trivial = LRU sequence with >= 2 writes / history step / observation after at least one earlier action of its session")
     run.proofs("PropC15.v")
     quick = run.tier == "quick"
@@ -123,13 +128,16 @@ def run(run):
     ctx = mp.get_context("spawn")
     hdir = os.path.join(common.VERIF, "harness")
     sessions = c15_shared.plan_sessions(run.rng, run.tier)
+    sib_sessions = c15_siblings.plan_sessions(run.rng, run.tier)
     with ctx.Pool(12) as pool:
         r_base = pool.map_async(_alone, [(nm, hdir, common.REPO) for nm in POOL])
         r_shared = pool.map_async(c15_shared.baseline_batch, [(chunk, hdir) for chunk in c15_shared.chunks(c15_shared.needed_baselines(sessions), 24)], chunksize=1)
+        r_sib = pool.map_async(c15_siblings.baseline_batch, [(chunk, hdir) for chunk in c15_shared.chunks(c15_siblings.needed_baselines(sib_sessions), 24)], chunksize=1)
         base = dict(r_base.get())
         import time as _t
         t_wait = _t.time()
         shared_base = dict(kv for part in r_shared.get() for kv in part)
+        sib_base = dict(kv for part in r_sib.get() for kv in part)
         t_wait = _t.time() - t_wait
     pdf, other = catalogue.tables()
     Q = catalogue.queries(rt.dx, pdf, other)
@@ -176,6 +184,8 @@ def run(run):
     run.section("histories", steps=steps, observations=nobs, pool=len(POOL), eviction_queries=len(evict), baselines_failed=[k for k, v in base.items() if "error" in v])
     # sessions over queries that share sub-expressions
     c15_shared.run_sessions(run, rt.dx, sessions, shared_base, extra_wait_for_baselines_s=round(t_wait, 1))
+    # sessions over sibling queries (they differ in a detail of one operand)
+    c15_siblings.run_sessions(run, rt.dx, sib_sessions, sib_base)
     # dataset rewrite
     tmp = tempfile.mkdtemp(prefix="c15_", dir=common.BUILD)
     try:
@@ -253,6 +263,13 @@ def replay(path):
     with open(path) as f:
         d = json.load(f)
     case = d.get("case") or {}
+    if case.get("kind") == "siblings":
+        diff = c15_siblings.replay_case(rt.dx, case)
+        if diff is None:
+            print("C15 replay: sibling %d after %s agrees with the query alone" % (case["target"], case["history"]))
+            return 0
+        print("C15 replay: after %s the %s of the query with operand %s is %s; alone it is %s" % (case["history"], diff[0], case["operands"][case["target"]], _short(diff[1]), _short(diff[2])))
+        return 1
     if case.get("kind") != "shared-subexpression":
         print("C15: replay by `VERIF_SEED=%s ./check C15 --tier %s`" % (d.get("seed"), d.get("tier")))
         return 2
